@@ -416,6 +416,13 @@ End Entity.
 Arguments e_pol {PS}. Arguments e_queue {PS}. Arguments e_poll {PS}.
 Arguments e_recv {PS}. Arguments e_fwd {PS}. Arguments e_queued {PS}. Arguments e_drop {PS}.
 
+Definition eout_eqb (a b : eout) : bool :=
+  match a, b with
+  | OFwd i t, OFwd j u => (i =? j) && (t =? u)
+  | OPoll t, OPoll u => t =? u
+  | _, _ => false
+  end.
+
 (** The four self-contained policies as one type (for the entity correspondence). *)
 Section PolSum.
   Variable O : numops.
@@ -449,13 +456,6 @@ Section PolSum.
     | _, _ => false
     end.
 
-  Definition eout_eqb (a b : eout) : bool :=
-    match a, b with
-    | OFwd i t, OFwd j u => (i =? j) && (t =? u)
-    | OPoll t, OPoll u => t =? u
-    | _, _ => false
-    end.
-
   (** observation after one handle_event: outputs, queue ids, poll flag, (received, forwarded, queued, dropped), policy state *)
   Definition eobs : Type := list eout * list Z * bool * (Z * Z * Z * Z) * pol_obs.
 
@@ -481,6 +481,233 @@ End PolSum.
 Arguments CTb {O}. Arguments CLk {O}. Arguments CSw {O}. Arguments CFw {O}.
 Arguments STb {O}. Arguments SLk {O}. Arguments SSw {O}. Arguments SFw {O}.
 Arguments OTb {O}. Arguments OLk {O}. Arguments OSw {O}. Arguments OFw {O}.
+
+(* ------------------------------------------------------------------ *)
+(** * Inductor (inductor.py): the same buffer/poll machine; its "policy" is the EWMA of
+    inter-arrival times.  [math.exp] is outside the model: the weight
+    [alpha = 1 - exp(-dt/tau)] of each arrival is an input (recorded by the harness with
+    the same expression).  [dflt] is the constant 0.01 (s) used before an estimate exists. *)
+Section Inductor.
+  Variable O : numops.
+  Variable dflt : num O.
+  Record ips := { i_sm : option (num O); i_la : option Z; i_lo : option Z }.
+
+  (** [_update_rate_estimate] followed by [self._last_arrival_time = now] *)
+  Definition ind_update (s : ips) (now : Z) (alpha : num O) : ips :=
+    match i_la s with
+    | None => {| i_sm := i_sm s; i_la := Some now; i_lo := i_lo s |}
+    | Some la =>
+        let dt := secs O (now - la) in
+        if nlt O dt (n0 O) then {| i_sm := i_sm s; i_la := Some now; i_lo := i_lo s |}
+        else {| i_sm := match i_sm s with
+                        | None => Some dt
+                        | Some sm => Some (nadd O (nmul O alpha dt) (nmul O (nsub O (n1 O) alpha) sm))
+                        end;
+                i_la := Some now; i_lo := i_lo s |}
+    end.
+
+  (** [_can_forward] *)
+  Definition ind_can (s : ips) (now : Z) : bool :=
+    match i_lo s with
+    | None => true
+    | Some lo =>
+        match i_sm s with
+        | None => true
+        | Some sm => if nle O sm (n0 O) then true else nle O sm (secs O (now - lo))
+        end
+    end.
+
+  (** [_can_forward] + [_forward] (sets [_last_output_time]) *)
+  Definition ind_acq (s : ips) (now : Z) : ips * bool :=
+    if ind_can s now then ({| i_sm := i_sm s; i_la := i_la s; i_lo := Some now |}, true) else (s, false).
+
+  (** the delay of [_ensure_poll_scheduled] (with the 1 ns guard of the repaired code) *)
+  Definition ind_tua (s : ips) (now : Z) : ips * Z :=
+    (s, guard (nanos O (match i_sm s with
+                        | Some sm => if neqb O sm (n0 O) then dflt else sm
+                        | None => dflt
+                        end))).
+
+  Inductive iin := IReq (id now : Z) (alpha : num O) | IPoll (now : Z).
+
+  Definition set_pol (e : ent ips) (ps : ips) : ent ips :=
+    {| e_pol := ps; e_queue := e_queue e; e_poll := e_poll e;
+       e_recv := e_recv e; e_fwd := e_fwd e; e_queued := e_queued e; e_drop := e_drop e |}.
+
+  Definition ind_step (cap : Z) (e : ent ips) (i : iin) : ent ips * list eout * list Z :=
+    match i with
+    | IReq id now a => ent_step ips ind_acq ind_tua cap (set_pol e (ind_update (e_pol e) now a)) (EReq id now)
+    | IPoll now => ent_step ips ind_acq ind_tua cap e (EPoll now)
+    end.
+
+  Fixpoint ind_run (cap : Z) (e : ent ips) (ins : list iin) : ent ips * list eout * list Z :=
+    match ins with
+    | [] => (e, [], [])
+    | i :: r => let '(e1, o1, d1) := ind_step cap e i in
+                let '(e2, o2, d2) := ind_run cap e1 r in (e2, o1 ++ o2, d1 ++ d2)
+    end.
+
+  Definition ireq_ids (ins : list iin) : list Z :=
+    flat_map (fun i => match i with IReq id _ _ => [id] | IPoll _ => [] end) ins.
+
+  Definition ips_same (s : ips) (ob : option (num O) * option Z * option Z) : bool :=
+    let '(sm, la, lo) := ob in
+    option_eqb (neqb O) (i_sm s) sm && option_eqb Z.eqb (i_la s) la && option_eqb Z.eqb (i_lo s) lo.
+
+  Definition iobs : Type := list eout * list Z * bool * (Z * Z * Z * Z) * (option (num O) * option Z * option Z).
+
+  Fixpoint ok_ind_run (cap : Z) (e : ent ips) (tr : list (iin * iobs)) : bool :=
+    match tr with
+    | [] => true
+    | (i, (outs, q, pf, (rc, fw, qd, dr), po)) :: rest =>
+        let '(e1, o1, _) := ind_step cap e i in
+        list_eqb eout_eqb o1 outs && list_eqb Z.eqb (e_queue e1) q && Bool.eqb (e_poll e1) pf &&
+        (e_recv e1 =? rc) && (e_fwd e1 =? fw) && (e_queued e1 =? qd) && (e_drop e1 =? dr) &&
+        ips_same (e_pol e1) po && ok_ind_run cap e1 rest
+    end.
+End Inductor.
+
+Arguments i_sm {O}. Arguments i_la {O}. Arguments i_lo {O}.
+Arguments IReq {O}. Arguments IPoll {O}.
+
+(** case: (0.01, queue capacity, recorded trace) *)
+Definition ok_ind (O : numops) (x : num O * Z * list (iin O * iobs O)) : bool :=
+  let '(dflt, cap, tr) := x in
+  ok_ind_run O dflt cap (ent_init (ips O) {| i_sm := None; i_la := None; i_lo := None |}) tr.
+
+(** * NullRateLimiter (null.py): forwards every event at its own time. *)
+Definition null_step (id now : Z) : list eout := [OFwd id now].
+Definition ok_null (tr : list (Z * Z * list eout)) : bool :=
+  forallb (fun x => let '(id, now, outs) := x in list_eqb eout_eqb (null_step id now) outs) tr.
+
+(* ------------------------------------------------------------------ *)
+(** * DistributedRateLimiter (distributed.py): several limiter instances share a KVStore
+    counter per window.  [handle_event] is a generator with two yield points (the store's
+    read and write latencies): one state per yield point, one step per resumption.
+    The window id ([int(now_s // window)], a float floor division) is an input. *)
+Record dls := {
+  d_win : option Z; d_local : Z; d_known : Z;
+  d_recv : Z; d_fwd : Z; d_drop : Z; d_reads : Z; d_writes : Z; d_lrej : Z; d_grej : Z;
+}.
+Definition dls_init : dls :=
+  {| d_win := None; d_local := 0; d_known := 0; d_recv := 0; d_fwd := 0; d_drop := 0;
+     d_reads := 0; d_writes := 0; d_lrej := 0; d_grej := 0 |}.
+
+(** a suspended handler: (request id, (limiter, window id, Some new_count after the read)) *)
+Definition dproc : Type := Z * (Z * Z * option Z).
+
+Record dworld := {
+  w_store : list (Z * Z);            (* window id -> count, newest binding first *)
+  w_lims : Z -> dls;
+  w_procs : list dproc;
+}.
+
+Inductive dev :=
+| DStart (lim req wid : Z)           (* handler entered *)
+| DResume (req now : Z).             (* handler resumed after a store latency, at clock time [now] *)
+Inductive dout := DWait | DFwd (req now : Z) | DDrop (req : Z).
+
+Definition dupd (f : Z -> dls) (k : Z) (v : dls) : Z -> dls := fun k' => if k' =? k then v else f k'.
+
+Fixpoint dfind (req : Z) (ps : list dproc) : option (Z * Z * option Z) :=
+  match ps with [] => None | (r, x) :: rest => if r =? req then Some x else dfind req rest end.
+Fixpoint dremove (req : Z) (ps : list dproc) : list dproc :=
+  match ps with [] => [] | (r, x) :: rest => if r =? req then rest else (r, x) :: dremove req rest end.
+Fixpoint dset (req : Z) (x : Z * Z * option Z) (ps : list dproc) : list dproc :=
+  match ps with [] => [] | (r, y) :: rest => if r =? req then (r, x) :: rest else (r, y) :: dset req x rest end.
+
+Section Dist.
+  Variable limit : Z.                (* global_limit *)
+
+  Definition dist_step (w : dworld) (e : dev) : dworld * dout :=
+    match e with
+    | DStart lim req wid =>
+        let L := w_lims w lim in
+        (* window change resets the local view *)
+        let '(lc, kn) := match d_win L with
+                         | Some k => if k =? wid then (d_local L, d_known L) else (0, 0)
+                         | None => (0, 0)
+                         end in
+        if limit <=? kn then
+          ({| w_store := w_store w;
+              w_lims := dupd (w_lims w) lim
+                {| d_win := Some wid; d_local := lc; d_known := kn; d_recv := d_recv L + 1; d_fwd := d_fwd L;
+                   d_drop := d_drop L + 1; d_reads := d_reads L; d_writes := d_writes L;
+                   d_lrej := d_lrej L + 1; d_grej := d_grej L |};
+              w_procs := w_procs w |}, DDrop req)
+        else
+          ({| w_store := w_store w;
+              w_lims := dupd (w_lims w) lim
+                {| d_win := Some wid; d_local := lc; d_known := kn; d_recv := d_recv L + 1; d_fwd := d_fwd L;
+                   d_drop := d_drop L; d_reads := d_reads L + 1; d_writes := d_writes L;
+                   d_lrej := d_lrej L; d_grej := d_grej L |};
+              w_procs := w_procs w ++ [(req, (lim, wid, None))] |}, DWait)
+    | DResume req now =>
+        match dfind req (w_procs w) with
+        | None => (w, DWait)                      (* not a suspended handler: ignored *)
+        | Some (lim, wid, None) =>
+            (* the read completed: current global count *)
+            let L := w_lims w lim in
+            let cur := zget wid (w_store w) in
+            if limit <=? cur then
+              ({| w_store := w_store w;
+                  w_lims := dupd (w_lims w) lim
+                    {| d_win := d_win L; d_local := d_local L; d_known := cur; d_recv := d_recv L; d_fwd := d_fwd L;
+                       d_drop := d_drop L + 1; d_reads := d_reads L; d_writes := d_writes L;
+                       d_lrej := d_lrej L; d_grej := d_grej L + 1 |};
+                  w_procs := dremove req (w_procs w) |}, DDrop req)
+            else
+              ({| w_store := w_store w;
+                  w_lims := dupd (w_lims w) lim
+                    {| d_win := d_win L; d_local := d_local L; d_known := cur; d_recv := d_recv L; d_fwd := d_fwd L;
+                       d_drop := d_drop L; d_reads := d_reads L; d_writes := d_writes L + 1;
+                       d_lrej := d_lrej L; d_grej := d_grej L |};
+                  w_procs := dset req (lim, wid, Some (cur + 1)) (w_procs w) |}, DWait)
+        | Some (lim, wid, Some newc) =>
+            (* the write completed *)
+            let L := w_lims w lim in
+            ({| w_store := (wid, newc) :: w_store w;
+                w_lims := dupd (w_lims w) lim
+                  {| d_win := d_win L; d_local := d_local L + 1; d_known := newc; d_recv := d_recv L; d_fwd := d_fwd L + 1;
+                     d_drop := d_drop L; d_reads := d_reads L; d_writes := d_writes L;
+                     d_lrej := d_lrej L; d_grej := d_grej L |};
+                w_procs := dremove req (w_procs w) |}, DFwd req now)   (* forward stamped with the current time (repaired code) *)
+        end
+    end.
+
+  Fixpoint dist_run (w : dworld) (es : list dev) : dworld * list dout :=
+    match es with
+    | [] => (w, [])
+    | e :: r => let '(w1, o) := dist_step w e in let '(w2, os) := dist_run w1 r in (w2, o :: os)
+    end.
+
+  Definition dworld_init : dworld := {| w_store := []; w_lims := fun _ => dls_init; w_procs := [] |}.
+
+  (** observation after a segment: output, store contents as (window, count) pairs, per-limiter
+      (window, local, known, received, forwarded, dropped, reads, writes, local rej, global rej) *)
+  Definition dls_same (L : dls) (o : option Z * Z * Z * (Z * Z * Z * Z * Z * Z * Z)) : bool :=
+    let '(wn, lc, kn, (rc, fw, dr, rd, wr, lr, gr)) := o in
+    option_eqb Z.eqb (d_win L) wn && (d_local L =? lc) && (d_known L =? kn) && (d_recv L =? rc) && (d_fwd L =? fw) &&
+    (d_drop L =? dr) && (d_reads L =? rd) && (d_writes L =? wr) && (d_lrej L =? lr) && (d_grej L =? gr).
+  Definition dout_eqb (a b : dout) : bool :=
+    match a, b with DWait, DWait => true | DFwd x t, DFwd y u => (x =? y) && (t =? u) | DDrop x, DDrop y => x =? y | _, _ => false end.
+  Definition dobs : Type := dout * list (Z * Z) * list (option Z * Z * Z * (Z * Z * Z * Z * Z * Z * Z)).
+
+  Fixpoint same_lims (f : Z -> dls) (i : Z) (obs : list (option Z * Z * Z * (Z * Z * Z * Z * Z * Z * Z))) : bool :=
+    match obs with [] => true | o :: r => dls_same (f i) o && same_lims f (i + 1) r end.
+
+  Fixpoint ok_dist_run (w : dworld) (tr : list (dev * dobs)) : bool :=
+    match tr with
+    | [] => true
+    | (e, (o, st, ls)) :: rest =>
+        let '(w1, o1) := dist_step w e in
+        dout_eqb o1 o && forallb (fun kv => zget (fst kv) (w_store w1) =? snd kv) st && same_lims (w_lims w1) 0 ls &&
+        ok_dist_run w1 rest
+    end.
+End Dist.
+
+Definition ok_dist (x : Z * list (dev * dobs)) : bool :=
+  let '(limit, tr) := x in ok_dist_run limit dworld_init tr.
 
 (* ------------------------------------------------------------------ *)
 (** * Instance 1: exact rationals *)
@@ -547,3 +774,4 @@ Definition ok_ad_q := ok_ad Qops.
 Definition ok_ad_f := ok_ad Fops.
 Definition ok_ent_q := ok_ent Qops.
 Definition ok_ent_f := ok_ent Fops.
+Definition ok_ind_f := ok_ind Fops.
